@@ -138,7 +138,7 @@ class BaseHandler:
         intended to be a short, small, quick check -- usually not even
         looking at the filesystem.  Here is a default.  Returns true
         if the request is secure, false if not.  By default, we eliminate
-        ./, ../, and //  This is split out from canhandlerequest becase
+        ./, ../, // and a trailing /.  This is split out from canhandlerequest becase
         it could be too easy to forget about it there."""
         return (
             (self.selector.find("./") == -1)
@@ -147,6 +147,7 @@ class BaseHandler:
             and (self.selector.find(".\\") == -1)
             and (self.selector.find("\\\\") == -1)
             and (self.selector.find("\0") == -1)
+            and not self.selector.endswith("/.")
         )
 
     def canhandlerequest(self) -> bool:
